@@ -10,7 +10,7 @@ TECH = {
  "C03": "path-sensitive typestate of the element encoder's buffer writes (tag protocol, content-written obligation), loop path-cover of recursive encoder calls, error path search with phi renaming, escape taint",
  "C04": "token-level path-sensitive typestate of the sequence encoder's writes (tag protocol, content-written obligation), sequence-counter pairing per block, map-range order effects with sort-dominance, producer/consumer shape contract, nil/type-set/bounds obligations",
  "C05": "path-sensitive typestate of both element encoders' markup writes, escape taint, escape-table evaluation, path enumeration of the coupled setters, accumulator-coupling of validator input and returned bytes, error path search",
- "C06": "backward slice of returned bytes for textual rewriting, option-to-SetEscapeHTML flow, wrapper composition, error path search",
+ "C06": "whole-program points-to ownership of the returned bytes (not reachable from package state), backward slice of returned bytes for textual rewriting, option-to-SetEscapeHTML flow, wrapper composition, error path search",
  "C07": "append/count pairing invariant, recursion-argument shape (keys[1:]), append dominance by len(keys)==0, alias lint for y[:0] reuse, compiler BCE report + zone analysis",
  "C08": "loop path-cover of walkers, referrer classification of the sub-key map, influence sets of breadcrumbs, comparison-operand provenance, points-to receiver effects",
  "C09": "loop path-cover with allowed skip conditions, leaf-append shape, wrapper composition and option forwarding, compiler BCE report",
